@@ -39,6 +39,7 @@
 // This is a dynamic analysis, not an enumeration of schedules.
 //
 //	mc-race <quick|thorough> [rounds iterations]
+//	mc-race c16 <quick|thorough> [rounds iterations]   (check C16, see verif/mc/callmc/conc/race.go)
 package main
 
 import (
@@ -49,6 +50,7 @@ import (
 	"sync"
 	"time"
 
+	"verif/mc/callmc/conc"
 	"verif/mc/schedmc"
 	"verif/mc/schedmc/driver"
 )
@@ -77,6 +79,12 @@ type result struct {
 }
 
 func main() {
+	// mc-race c16 <tier>: the race pass of C16's schedule dimension
+	// (verif/mc/callmc/conc), same binary, different bodies.
+	if len(os.Args) > 1 && os.Args[1] == "c16" {
+		conc.RaceMain(os.Args[2:])
+		return
+	}
 	tier := "quick"
 	if len(os.Args) > 1 {
 		tier = os.Args[1]
